@@ -104,6 +104,18 @@ CLAIMED["C12"] = (
     "programs of <=40 statements, depth <=5, are validated event by event (TraceReg) with both invariants evaluated at every step.",
     "handlers always call Next (ordering only); clean non-root prefixes; Resource registrations are covered by C16; trusted: TLC", "6 C12")
 
+CLAIMED["C03"] = (
+    "TLA+ spec RuxServe: in-flight requests over explicit Go slices (shared backing arrays, append in place vs allocate), pool "
+    "and lazily initialised fields; TLC enumerates every interleaving at handler-boundary granularity and checks NoInterference, "
+    "NoSharedCtx and the model-level race condition; every schedule replayed on real goroutines parked at handler boundaries; "
+    "-race stress traces validated per request by TLC, race reports with a rux frame are violations",
+    "All interleavings of 2 requests (and 3 on the critical shape) over routes a / b(dynamic) / 404, for global and route "
+    "middleware slices with and without spare capacity: each request's log equals its solo log, contexts are never shared, no "
+    "cell written by one request is touched by another. The schedules run on the real router (plain and caching) with a parking "
+    "scheduler; then 2-8 goroutines serve thousands of requests (plus concurrent cached lookups) under the race detector.",
+    "interleavings below handler granularity cannot be forced in Go: explored in the model, observed by the race detector; "
+    "trusted: TLC, Go race detector, parking scheduler (stuck schedule = inconclusive)", "6 C03")
+
 PENDING = {}
 
 
